@@ -117,7 +117,13 @@ def prepare(cases, root):
             with open(os.path.join(cdir, "spec.aml"), "w") as fh:
                 fh.write(AML)
             meas = '    /begin MEASUREMENT m1 "" UBYTE NO_COMPU_METHOD 1 1 0 255 /begin IF_DATA X 1 /end IF_DATA /end MEASUREMENT\n'
-            text = HEAD + "    /begin A2ML\n" + directive(f) + "\n    /end A2ML\n" + meas + TAIL
+            if c.get("nested"):
+                # main -> <place>/blk.a2l, which holds the A2ML block with /include spec.aml (next to blk.a2l)
+                with open(os.path.join(cdir, "blk.a2l"), "w") as fh:
+                    fh.write("    /begin A2ML\n" + directive({"place": "same", "name": "spec.aml", "sep": "/", "quoted": c["quoted"]}) + "\n    /end A2ML\n")
+                text = HEAD + "    " + directive({"place": c["place"], "name": "blk.a2l", "sep": "/", "quoted": True}) + "\n" + meas + TAIL
+            else:
+                text = HEAD + "    /begin A2ML\n" + directive(f) + "\n    /end A2ML\n" + meas + TAIL
             flat = HEAD + "    /begin A2ML\n" + AML + "\n    /end A2ML\n" + meas + TAIL
         elif c["fam"] == "diag":
             # main -> incA (-> incB): the innermost file holds an unknown keyword on its 3rd line
